@@ -2,6 +2,7 @@ package counts
 
 import (
 	"fmt"
+	"math/bits"
 )
 
 // Humanable is a quantity that can be made human-readable using
@@ -76,20 +77,35 @@ func (h *Humaner) FormatNumber(n uint64, unit string) (numeral string, unitStrin
 		return fmt.Sprintf("%d", n), unit
 	}
 
-	mantissa := float64(n) / float64(prefix.Multiplier)
-	var format string
+	// Round `n / prefix.Multiplier` to the number of decimal places
+	// that we want to show. Do this using integer arithmetic,
+	// because `float64` cannot represent integers above 2^53 (nor
+	// their quotients) exactly, which made numbers come out rounded
+	// the wrong way.
+	var decimals int
+	var scale uint64
 
 	switch {
 	case wholePart >= 100:
-		// `mantissa` can actually be up to 1023.999.
-		format = "%.0f"
+		// The whole part can actually be up to 1023.
+		decimals, scale = 0, 1
 	case wholePart >= 10:
-		format = "%.1f"
+		decimals, scale = 1, 10
 	default:
-		format = "%.2f"
+		decimals, scale = 2, 100
 	}
 
-	return fmt.Sprintf(format, mantissa), prefix.Name + unit
+	// Compute `(n * scale + multiplier / 2) / multiplier` in 128 bits:
+	hi, lo := bits.Mul64(n, scale)
+	lo, carry := bits.Add64(lo, prefix.Multiplier/2, 0)
+	hi += carry
+	scaled, _ := bits.Div64(hi, lo, prefix.Multiplier)
+
+	if decimals == 0 {
+		return fmt.Sprintf("%d", scaled), prefix.Name + unit
+	}
+
+	return fmt.Sprintf("%d.%0*d", scaled/scale, decimals, scaled%scale), prefix.Name + unit
 }
 
 // Format formats values, aligned, in `len(unit) + 10` or fewer
